@@ -12,7 +12,7 @@ class C04(OutstationProp):
             "distinct (config, trace)")
 
     def cases(self, rng, tier):
-        n = 300 if tier == "quick" else 5000
+        n = 600 if tier == "quick" else 5000
         return self.cases_session(rng, n, focus="controls", unsol=0 if rng.chance(1, 2) else None)
 
     def oracle(self, case, impl):
